@@ -440,13 +440,16 @@ class Trial:
         return {"layer": "L", "lock": rng.choice(LAYER_KINDS["L"])}
 
     # -- one op ---------------------------------------------------------------
-    def do_op(self, op, argv, fault="draw", expect=None, defer=None):
+    def do_op(self, op, argv, fault="draw", expect=None, defer=None, twin=None):
         """Execute one op with invariants.  fault: "draw", None or a plan dict."""
         step = step_of(op)
         pre = self.current
         jpath = self.db + "-journal"
         started_hot = os.path.exists(jpath) and os.path.getsize(jpath) > 512 and getattr(self, "deferred", False)
-        twin_ex, post = self.run_twin(argv)
+        if twin is None:
+            twin_ex, post = self.run_twin(argv)
+        else:
+            twin_ex, post = twin      # sweeps: same pre-state files, same op => same twin
         t_out = twin_ex.outcome
         if fault == "draw":
             fault = self.draw_fault(twin_ex) if self.rng.random() < self.fault_rate else None
@@ -759,7 +762,7 @@ def replay_ops(rep, directory):
 # ---------------------------------------------------------------------------
 
 def sweep(seed, directory, step, prefix_steps, spec=None, knobs=None, layers=("A", "C", "B"), b_stride=None,
-          field=None, max_positions=None, hot=False, size=None):
+          field=None, max_positions=None, hot=False, size=None, shard=None):
     """Bring a dataset to a pre-state, then fail `step` at every position.
 
     Returns (stats, distinct, violations[list of (Violation, replay record)], sample).
@@ -840,7 +843,9 @@ def sweep(seed, directory, step, prefix_steps, spec=None, knobs=None, layers=("A
             plans.append({"layer": "L", "lock": lock})
     if max_positions and len(plans) > max_positions:
         plans = rng.sample(plans, max_positions)
-    stats["sweep_cases"] += 1
+    if shard:
+        plans = plans[shard[0]::shard[1]]
+    stats["sweep_cases"] += 1 if (not shard or shard[0] == 0) else 0
     stats["sweep_plans"] += len(plans)
     if field or size:
         stats["sweep_cases_large_data"] += 1
@@ -855,9 +860,9 @@ def sweep(seed, directory, step, prefix_steps, spec=None, knobs=None, layers=("A
         trial.ack_count = collections.Counter(pre_ack_count)
         trial.ops = list(prefix_ops)
         try:
-            _ex, retry = trial.do_op(step, argv, plan)
+            _ex, retry = trial.do_op(step, argv, plan, twin=(twin_ex, post))
             if retry is not None:
-                trial.do_op(step, argv, None, expect=retry)
+                trial.do_op(step, argv, None, expect=retry, twin=(twin_ex, post) if not trial.deferred else None)
         except Violation as v:
             violations.append((v, trial.replay_record(v)))
             if len(violations) >= 3:
@@ -910,7 +915,7 @@ def sweep_job(job):
         stats, distinct, violations, sample = sweep(
             job["seed"], directory, job["step"], job["prefix"], layers=job.get("layers", ("A", "C", "B", "L")),
             knobs=None, field=job.get("field"), max_positions=job.get("max_positions"),
-            spec=job.get("spec"), hot=bool(job.get("hot")), size=job.get("size"))
+            spec=job.get("spec"), hot=bool(job.get("hot")), size=job.get("size"), shard=job.get("shard"))
     stats = collections.Counter(stats)
     stats["runs"] = 1
     return {"stats": stats, "violations": [_viol_record(v, r) for v, r in violations][:3],
@@ -961,9 +966,9 @@ LARGE_SWEEP_CASES = [
 TIERS = {
     # histories: (jobs, per job); fault-free share; sweeps: number of (dataset) samples per sweep case
     "quick": {"hist": (48, 6), "fault_free_jobs": 8, "sweeps": 1, "hot_sweeps": 1, "sweep_max": 260, "field_hist": 0,
-              "large_sweeps": 1, "large_max": 28},
+              "large_sweeps": 1, "large_max": 28, "shards": 1, "large_shards": 2},
     "thorough": {"hist": (1600, 10), "fault_free_jobs": 200, "sweeps": 16, "hot_sweeps": 8, "sweep_max": None, "field_hist": 4,
-                 "large_sweeps": 6, "large_max": 400},
+                 "large_sweeps": 4, "large_max": 320, "shards": 8, "large_shards": 16},
 }
 
 RULE = (
@@ -1005,22 +1010,29 @@ def check(tier, only=None):
                 jobs.append(("hist", {"seed": runner.derive_seed(seed, "C20", "fieldhist", i), "count": 1,
                                       "field": 1 + i % 2}))
         if only in (None, "sweeps"):
+            nsh = cfg["shards"]
             for rep in range(cfg["sweeps"]):
                 for ci, (step, prefix) in enumerate(SWEEP_CASES):
-                    jobs.append(("sweep", {"seed": runner.derive_seed(seed, "C20", "sweep", rep, ci), "step": step,
-                                           "prefix": list(prefix), "max_positions": cfg["sweep_max"],
-                                           "want_samples": rep == 0 and ci in (0, 8)}))
+                    for sh in range(nsh):
+                        jobs.append(("sweep", {"seed": runner.derive_seed(seed, "C20", "sweep", rep, ci), "step": step,
+                                               "prefix": list(prefix), "max_positions": cfg["sweep_max"],
+                                               "shard": (sh, nsh),
+                                               "want_samples": rep == 0 and ci in (0, 8) and sh == 0}))
             for rep in range(cfg["hot_sweeps"]):
                 for ci, (step, prefix) in enumerate(HOT_SWEEP_CASES):
-                    jobs.append(("sweep", {"seed": runner.derive_seed(seed, "C20", "hotsweep", rep, ci), "step": step,
-                                           "prefix": list(prefix), "max_positions": cfg["sweep_max"], "hot": True,
-                                           "layers": ("A", "C"), "want_samples": rep == 0 and ci == 0}))
+                    for sh in range(nsh):
+                        jobs.append(("sweep", {"seed": runner.derive_seed(seed, "C20", "hotsweep", rep, ci),
+                                               "step": step, "prefix": list(prefix), "max_positions": cfg["sweep_max"],
+                                               "hot": True, "layers": ("A", "C"), "shard": (sh, nsh),
+                                               "want_samples": rep == 0 and ci == 0 and sh == 0}))
             for rep in range(cfg["large_sweeps"]):
                 for ci, (step, prefix, field, size) in enumerate(LARGE_SWEEP_CASES):
-                    jobs.append(("sweep", {"seed": runner.derive_seed(seed, "C20", "largesweep", rep, ci), "step": step,
-                                           "prefix": list(prefix), "max_positions": cfg["large_max"],
-                                           "field": field, "size": size, "layers": ("A", "C"), "large": True,
-                                           "want_samples": rep == 0 and ci == 0}))
+                    for sh in range(cfg["large_shards"]):
+                        jobs.append(("sweep", {"seed": runner.derive_seed(seed, "C20", "largesweep", rep, ci),
+                                               "step": step, "prefix": list(prefix), "max_positions": cfg["large_max"],
+                                               "field": field, "size": size, "layers": ("A", "C"), "large": True,
+                                               "shard": (sh, cfg["large_shards"]),
+                                               "want_samples": rep == 0 and ci == 0 and sh == 0}))
         jobs.sort(key=lambda j: (0 if j[1].get("large") else 1) if j[0] == "sweep" else 2)
         for result in runner.run_jobs(_dispatch, jobs):
             report.absorb(result)
